@@ -91,51 +91,127 @@ Definition hd_tag (ts : list stoken) : tag :=
 Definition cur_matches (src : bytes) (tok : token) (ts : list stoken) : Prop :=
   match ts with [] => ttag tok = TEOF | k :: _ => tok_matches src tok k end.
 
-(* the parser's current token is the head of [ts], its lexer is in front of the rest *)
-Definition At (src : bytes) (st : pstate) (ts : list stoken) : Prop :=
-  psrc st = src /\ cur_matches src (pcur st) ts /\ LexAt src (plex st) (tl ts) /\
-  forallb wf_tok ts = true.
+(* the fixed context of a parse: the laid-out text (each token with the gap in front of it,
+   then a trailing gap) and the two mode flags of the parser *)
+Record pctx := mkCtx {
+  c_items : list (bytes * stoken);
+  c_trail : bytes;
+  c_loop : bool;      (* Parser.inLoop *)
+  c_fn : bool         (* Parser.inFunction *)
+}.
+Definition csrc (c : pctx) : bytes := lay (c_items c) (c_trail c).
+Coercion csrc : pctx >-> bytes.
 
-Lemma at_tag : forall src st ts, At src st ts -> ttag (pcur st) = hd_tag ts.
-Proof. intros src st [|k ts] [_ [H _]]; simpl in *; [exact H|exact (proj1 H)]. Qed.
+(* the gap in front of token number i; the trailing gap for i = number of tokens *)
+Definition gap_at (c : pctx) (i : nat) : bytes := nth i (map fst (c_items c)) (c_trail c).
+(* the text from the gap of token j on; nothing once the end has been read *)
+Definition rest_text (c : pctx) (j : nat) : bytes :=
+  if j <=? length (c_items c) then lay (skipn j (c_items c)) (c_trail c) else [].
 
-Lemma at_cur : forall src st k ts, At src st (k :: ts) -> tok_matches src (pcur st) k.
-Proof. intros src st k ts [_ [H _]]. exact H. Qed.
+(* the parser's current token is the head of [ts], which is a suffix of the token sequence;
+   its lexer is behind that token; [pend] tells whether the gap in front of it had a line end *)
+Definition At (c : pctx) (st : pstate) (ts : list stoken) : Prop :=
+  Gaps true (c_items c) /\ is_gap (c_trail c) /\
+  psrc st = csrc c /\ pinloop st = c_loop c /\ pinfn st = c_fn c /\
+  exists i, i + length ts = length (c_items c) /\ ts = map snd (skipn i (c_items c)) /\
+    cur_matches c (pcur st) ts /\ lex_in c (plex st) /\ lrest (plex st) = rest_text c (S i) /\
+    pend st = has_nl (gap_at c i).
 
-Lemma advance_at : forall src st k ts,
+Lemma at_tag : forall (src : pctx) st ts, At src st ts -> ttag (pcur st) = hd_tag ts.
+Proof.
+  intros src st ts (_ & _ & _ & _ & _ & i & _ & _ & H & _).
+  destruct ts as [|k ts]; simpl in *; [exact H|exact (proj1 H)].
+Qed.
+
+Lemma at_cur : forall (src : pctx) st k ts, At src st (k :: ts) -> tok_matches src (pcur st) k.
+Proof. intros src st k ts (_ & _ & _ & _ & _ & i & _ & _ & H & _). exact H. Qed.
+
+Lemma skipn_cons_next : forall (A : Type) i (l : list A) x r, skipn i l = x :: r -> skipn (S i) l = r.
+Proof.
+  induction i as [|i IH]; intros l x r H.
+  - cbn in H. subst l. reflexivity.
+  - destruct l as [|y l]; [discriminate H|]. cbn [skipn] in *. apply (IH l x r H).
+Qed.
+
+Lemma nth_skipn_hd : forall (A : Type) i (l : list A) x r d, skipn i l = x :: r -> nth i l d = x.
+Proof.
+  induction i as [|i IH]; intros l x r d H.
+  - cbn in H. subst l. reflexivity.
+  - destruct l as [|y l]; [discriminate H|]. cbn [skipn nth] in *. apply (IH l x r d H).
+Qed.
+
+Lemma map_skipn : forall (A B : Type) (f : A -> B) i l, map f (skipn i l) = skipn i (map f l).
+Proof. induction i as [|i IH]; intros [|x l]; cbn; auto. Qed.
+
+Lemma advance_at : forall (src : pctx) st k ts,
   At src st (k :: ts) ->
   exists st', advance st = POk (pcur st') st' /\ At src st' ts /\ pprev st' = pcur st.
 Proof.
-  intros src st k ts [Hsrc [Hcur [Hlex Hwf]]]. simpl in Hlex. simpl in Hwf.
-  apply andb_true_iff in Hwf. destruct Hwf as [Hk Hwf].
-  destruct ts as [|k' ts'].
-  - destruct (nnn_at_eof src (plex st) Hlex) as [tok [l' [saw [E [Htag Hl']]]]].
-    exists (mkP (psrc st) l' tok (pcur st) saw (pinfn st) (pinloop st)).
+  intros src st k ts (HG & HT & Hsrc & Hloop & Hfn & i & Hi & Hts & Hcur & Hin & Hrest & Hpend).
+  cbn [length] in Hi.
+  unfold rest_text in Hrest.
+  destruct (Nat.leb_spec (S i) (length (c_items src))) as [Hle|Hgt]; [|blia].
+  destruct (skipn i (c_items src)) as [|[g0 k0] r0] eqn:Esk; [discriminate Hts|].
+  cbn [map snd] in Hts. inversion Hts as [[Ek Ets]]. subst k0.
+  pose proof (skipn_cons_next _ _ _ _ _ Esk) as Esk'.
+  rewrite Esk' in Hrest.
+  destruct r0 as [|[g1 k1] r1].
+  - (* the last token: next is the end of the text *)
+    cbn [lay] in Hrest.
+    destruct (nnn_trail src (plex st) (c_trail src) Hin Hrest HT) as [tok [l' [E [Htag [Hin' Hr']]]]].
+    exists (mkP (psrc st) l' tok (pcur st) (has_nl (c_trail src)) (pinfn st) (pinloop st)).
     split; [|split].
     + unfold advance. rewrite E. reflexivity.
-    + split; [exact Hsrc|]. split; [exact Htag|]. split; [exact Hl'|reflexivity].
+    + split; [exact HG|]. split; [exact HT|]. split; [exact Hsrc|]. split; [exact Hloop|].
+      split; [exact Hfn|]. exists (S i). subst ts. cbn [map length] in *.
+      split; [blia|]. split; [rewrite Esk'; reflexivity|]. split; [exact Htag|]. split; [exact Hin'|].
+      split.
+      * cbn [plex]. rewrite Hr'. unfold rest_text.
+        destruct (Nat.leb_spec (S (S i)) (length (c_items src))); [blia|reflexivity].
+      * cbn [pend]. unfold gap_at. rewrite nth_overflow; [reflexivity|]. rewrite map_length. blia.
     + reflexivity.
-  - simpl in Hwf. apply andb_true_iff in Hwf. destruct Hwf as [Hk' Hwf'].
-    destruct (nnn_at src (plex st) k' ts' Hlex Hk') as [tok [l' [saw [E [Hm Hl']]]]].
-    exists (mkP (psrc st) l' tok (pcur st) saw (pinfn st) (pinloop st)).
+  - destruct (Gaps_nth (S i) (c_items src) true g1 k1 r1 HG Esk') as [Hg1 [Hk1 Hr1]].
+    destruct (nnn_items src (plex st) g1 k1 r1 (c_trail src) Hin Hrest Hg1 Hk1 Hr1 HT)
+      as [tok [l' [E [Hm [Hin' Hr']]]]].
+    exists (mkP (psrc st) l' tok (pcur st) (has_nl g1) (pinfn st) (pinloop st)).
     split; [|split].
     + unfold advance. rewrite E. reflexivity.
-    + split; [exact Hsrc|]. split; [exact Hm|]. split; [exact Hl'|].
-      simpl. now rewrite Hk', Hwf'.
+    + split; [exact HG|]. split; [exact HT|]. split; [exact Hsrc|]. split; [exact Hloop|].
+      split; [exact Hfn|]. exists (S i). subst ts. cbn [map length] in *.
+      split; [blia|]. split; [rewrite Esk'; reflexivity|]. split; [exact Hm|]. split; [exact Hin'|].
+      split.
+      * cbn [plex]. rewrite Hr'. unfold rest_text.
+        destruct (Nat.leb_spec (S (S i)) (length (c_items src))) as [_|Hgt]; [|blia].
+        rewrite (skipn_cons_next _ _ _ _ _ Esk'). reflexivity.
+      * cbn [pend]. unfold gap_at.
+        rewrite (nth_skipn_hd _ (S i) (map fst (c_items src)) g1 (map fst r1)); [reflexivity|].
+        rewrite <- map_skipn, Esk'. reflexivity.
     + reflexivity.
 Qed.
 
-Lemma advance_at_eof : forall src st,
-  At src st [] ->
-  exists st', advance st = POk (pcur st') st' /\ At src st' [] /\ pprev st' = pcur st.
+Lemma Gaps_wf_skipn : forall i items first, Gaps first items ->
+  forallb wf_tok (map snd (skipn i items)) = true.
 Proof.
-  intros src st [Hsrc [Hcur [Hlex Hwf]]]. simpl in Hlex.
-  destruct (nnn_at_eof src (plex st) Hlex) as [tok [l' [saw [E [Htag Hl']]]]].
-  exists (mkP (psrc st) l' tok (pcur st) saw (pinfn st) (pinloop st)).
-  split; [|split].
-  - unfold advance. rewrite E. reflexivity.
-  - split; [exact Hsrc|]. split; [exact Htag|]. split; [exact Hl'|reflexivity].
-  - reflexivity.
+  induction i as [|i IH]; intros items first H.
+  - cbn [skipn]. revert first H. induction items as [|[g k] r IHr]; intros first H; [reflexivity|].
+    cbn [Gaps] in H. cbn [map snd forallb]. destruct H as [_ [_ [Hk Hr]]]. rewrite Hk. apply (IHr false Hr).
+  - destruct items as [|[g k] r]; [reflexivity|]. cbn [skipn]. cbn [Gaps] in H. apply (IH r false). tauto.
+Qed.
+
+Lemma at_wf : forall (src : pctx) st ts, At src st ts -> forallb wf_tok ts = true.
+Proof.
+  intros src st ts (HG & _ & _ & _ & _ & i & _ & Hts & _). subst ts. eapply Gaps_wf_skipn; eauto.
+Qed.
+
+(* at the end of the text the parser can go on reading end-of-text tokens *)
+Lemma advance_at_eof : forall (src : pctx) st,
+  At src st [] -> exists tok st', advance st = POk tok st'.
+Proof.
+  intros src st (HG & HT & Hsrc & Hloop & Hfn & i & Hi & Hts & Hcur & Hin & Hrest & Hpend).
+  cbn [length] in Hi. unfold rest_text in Hrest.
+  destruct (Nat.leb_spec (S i) (length (c_items src))) as [Hle|Hgt]; [blia|].
+  destruct (nnn_trail src (plex st) [] Hin Hrest (gap_ws [] eq_refl)) as [tok [l' [E _]]].
+  eexists. eexists. unfold advance. rewrite E. reflexivity.
 Qed.
 
 Lemma consume_at : forall src st k ts tags,
@@ -283,12 +359,12 @@ Lemma leb_true : forall a b, a <= b -> Nat.leb a b = true.
 Proof. intros. now apply Nat.leb_le. Qed.
 
 (* the result of parsing one operand completely (threshold = the level printed for) *)
-Definition Mres (src : bytes) (q : nat) (st : pstate) (n : nat) (rest : list stoken) (e : sexpr) : Prop :=
+Definition Mres (src : pctx) (q : nat) (st : pstate) (n : nat) (rest : list stoken) (e : sexpr) : Prop :=
   exists e' st1, strip src e' = Some (desugar e) /\ At src st1 rest /\
     forall N, S n <= N -> parse_expr_prec N q st = POk e' st1.
 
 (* reaching the operator loop with the operand as left-hand side *)
-Definition Kres (src : bytes) (p : nat) (st : pstate) (n : nat) (rest : list stoken) (e : sexpr) : Prop :=
+Definition Kres (src : pctx) (p : nat) (st : pstate) (n : nat) (rest : list stoken) (e : sexpr) : Prop :=
   exists lhs st1 d, strip src lhs = Some (desugar e) /\ At src st1 rest /\ d <= n /\
     forall N, S n <= N -> parse_expr_prec N p st = parse_infix_loop (N - d) p lhs st1.
 
@@ -824,7 +900,7 @@ Qed.
 
 Section Main.
   Variable force : sexpr -> bool.
-  Variable src : bytes.
+  Variable src : pctx.
 
   Definition Kraw (e : sexpr) : Prop :=
     forall p rest st, wf_sexpr e = true -> 1 <= p -> p <= level e ->
@@ -1150,7 +1226,7 @@ Qed.
 Lemma consume_eof_at : forall src st, At src st [] ->
   exists st', consume [TEOF] st = POk tt st'.
 Proof.
-  intros src st HA. destruct (advance_at_eof _ _ HA) as [st' [E _]].
+  intros src st HA. destruct (advance_at_eof _ _ HA) as [tok [st' E]].
   exists st'. unfold consume. rewrite (at_tag _ _ _ HA). cbn [hd_tag tag_in tag_eqb tag_index Nat.eqb orb].
   unfold pbind. rewrite E. reflexivity.
 Qed.
@@ -1170,6 +1246,30 @@ Proof.
   cbn [map snd forallb]. rewrite Hk. apply (IH false Hr).
 Qed.
 
+(* Parser.Parse / ParseExpression begin with one advance from the fresh parser *)
+Lemma advance_first : forall (c : pctx),
+  c_items c <> [] -> Gaps true (c_items c) -> is_gap (c_trail c) -> c_loop c = false -> c_fn c = false ->
+  exists tok st1, advance (new_parser c) = POk tok st1 /\ At c st1 (map snd (c_items c)).
+Proof.
+  intros c Hne HG HT Hloop Hfn.
+  destruct (c_items c) as [|[g k] r] eqn:Ei; [congruence|].
+  assert (HG' := HG). cbn [Gaps] in HG'. destruct HG' as [Hg [_ [Hk Hr]]].
+  assert (Hin : lex_in c (new_lexer c)) by (exists []; split; reflexivity).
+  assert (Hrest : lrest (new_lexer c) = lay ((g, k) :: r) (c_trail c)).
+  { cbn [new_lexer lrest]. unfold csrc. rewrite Ei. reflexivity. }
+  destruct (nnn_items c (new_lexer c) g k r (c_trail c) Hin Hrest Hg Hk Hr HT)
+    as [tok [l' [E [Hm [Hin' Hr']]]]].
+  exists tok, (mkP c l' tok zero_token (has_nl g) false false).
+  split.
+  - unfold advance, new_parser. cbn [plex psrc pcur pinfn pinloop]. rewrite E. reflexivity.
+  - split; [rewrite Ei; exact HG|]. split; [exact HT|]. split; [reflexivity|].
+    split; [cbn; congruence|]. split; [cbn; congruence|].
+    exists 0. rewrite Ei. cbn [skipn]. split; [cbn [length map]; rewrite map_length; lia|].
+    split; [reflexivity|]. split; [exact Hm|]. split; [exact Hin'|]. split.
+    + cbn [plex]. rewrite Hr'. unfold rest_text. rewrite Ei. reflexivity.
+    + cbn [pend]. unfold gap_at. rewrite Ei. reflexivity.
+Qed.
+
 (* every printing of a well-formed expression -- with any set of forced parentheses, laid
    out with any gaps between the tokens (spaces, tabs, CRs, line ends, '#' comments up to a
    line end) -- parses, with the fuel the model grants, to a tree whose position-free form
@@ -1181,28 +1281,24 @@ Theorem parse_print_gaps : forall force e items trail, wf_sexpr e = true ->
 Proof.
   intros force e items trail Hwf Hmap Hg Htrail.
   pose proof (lay_len trail items true Hg) as Hlen.
-  pose proof (gaps_wf items true Hg) as Hts.
-  pose proof (M_all force (lay items trail) e 1 []) as HM.
+  set (c := mkCtx items trail false false).
+  pose proof (M_all force c e 1 []) as HM.
   rewrite app_nil_r in HM. rewrite <- Hmap in HM. rewrite map_length in HM.
-  destruct items as [|[ws k] r].
-  { destruct (print_hd force e Hwf 1) as [k [tl [Ek _]]]. rewrite Ek in Hmap. discriminate Hmap. }
-  destruct (nnn_first_lay ws k r trail Hg Htrail) as [tok [l' [saw [El [Hm Hl]]]]].
-  set (src := lay ((ws, k) :: r) trail) in *.
-  set (st1 := mkP src l' tok zero_token saw false false).
-  assert (Eadv : advance (new_parser src) = POk tok st1).
-  { unfold advance, new_parser, new_lexer in *. cbn [plex psrc pcur pinfn pinloop lrest].
-    rewrite El. reflexivity. }
-  assert (HA1 : At src st1 (map snd ((ws, k) :: r))).
-  { split; [reflexivity|]. split; [exact Hm|]. split; [exact Hl|]. exact Hts. }
+  assert (Hne : items <> []).
+  { intro; subst items. destruct (print_hd force e Hwf 1) as [k [tl [Ek _]]]. rewrite Ek in Hmap.
+    discriminate Hmap. }
+  destruct (advance_first c Hne Hg Htrail eq_refl eq_refl) as [tok [st1 [Eadv HA1]]].
+  cbn [c_items c] in HA1.
   destruct (HM st1 Hwf (le_n 1)) as [e' [st2 [Hs [HA2 Hpar]]]];
     [cbn; lia|exact HA1|].
   destruct (consume_eof_at _ _ HA2) as [st3 E3].
   exists e', st3. split; [|exact Hs].
   unfold parse_expression_src, parse_expression_fuel.
-  mred. rewrite Eadv. unfold parse_expression. change (prec_index PrecAssign) with 1.
+  mred. change (lay items trail) with (csrc c). rewrite Eadv. unfold parse_expression.
+  change (prec_index PrecAssign) with 1.
   rewrite Hpar.
   - rewrite E3. reflexivity.
-  - unfold parse_fuel. lia.
+  - unfold parse_fuel. change (csrc c) with (lay items trail). lia.
 Qed.
 
 (* horizontal white space only (decidable side conditions) *)
